@@ -229,6 +229,9 @@ def run(chk, ctx):
                        'pamqp/decode.py::decimal')
     from .. import tsrules
     for cons, okk, why in tsrules.decimal_sign_rule(ctx):
+        if okk is None:
+            chk.undecide('C03.S', cons, why)
+            continue
         chk.ob('C03.S', cons, okk, why, site='pamqp/encode.py::decimal')
     for cons, okk, why in tsrules.decimal_context_rule(ctx):
         chk.ob('C03.S', cons, okk, why, site='pamqp/decode.py::decimal')
